@@ -74,7 +74,25 @@ class ProgGen:
                 })
         for i in range(r.randint(1, 4)):
             funcs.append(self.function(f"f{i}", export=True))
-        return {"globals": globs, "functions": funcs}
+        prog = {"globals": globs, "functions": funcs}
+        if self.sw.get("two_module"):
+            # the globals live in a library module; a scalar local of some functions takes the
+            # name of a global that the function does not mention (it shadows the imported global)
+            import re
+
+            shadowed = 0
+            for f in funcs:
+                js = core.canon(f["body"])
+                free = [n for n, _t in globs if f'"{n}"' not in js]
+                locs = sorted(set(re.findall(r'\["decl",\["(?:int|float)"\],"(t\d+)"', js)))
+                if free and locs and r.random() < 0.7:
+                    import json as _json
+
+                    f["body"] = _json.loads(js.replace(f'"{r.choice(locs)}"', f'"{r.choice(free)}"'))
+                    shadowed += 1
+            prog["shadowing"] = shadowed if shadowed else 0
+            prog["two_module"] = True
+        return prog
 
     # --- expressions; env: name -> type
     def int_atoms(self, env):
@@ -502,6 +520,7 @@ def draw_swarm(rng):
         "p_lifecycle": rng.choice([0.0, 0.05, 0.12]),
         "second_program": rng.random() < 0.3,
         "deep_rec": rng.random() < 0.25,
+        "two_module": rng.random() < 0.15,
         "aggregate_stores_only": rng.random() < 0.2,
         # always False: the optimisation passes have defects of their own on the
         # unchanged tree (`++gi; p0 = gi;` crashes with -O) which are C02's matter
@@ -626,7 +645,7 @@ def gen_scenario(seed, tier="quick"):
                 # whatever the VM really did)
                 models[v].g = m.g
     sc = {"kind": "c15", "seed": seed, "prog": prog, "ops": ops, "optimize": sw["optimize"], "swarm": sw,
-          "hostobjs": hostobjs}
+          "hostobjs": hostobjs, "two_module": bool(prog.get("two_module"))}
     if rng.random() < 0.04:
         # beyond-statement probe P1: a host exception raised inside an invocation at a given VM
         # line event (KeyboardInterrupt analogue).  Tallied, never judged; the run ends there.
